@@ -25,7 +25,7 @@ func init() {
 		"os.Remove": "ModelRemove", "os.ReadFile": "ModelReadFile", "os.WriteFile": "ModelWriteFile", "os.IsNotExist": "ModelIsNotExist",
 		"os.IsExist": "ModelIsExist", "os.TempDir": "ModelOSTempDir", "os.Getenv": "ModelGetenv", "os.Setenv": "ModelSetenv", "os.IsTimeout": "ModelIsTimeout",
 		"(*os.File).Read": "ModelFileRead", "(*os.File).Write": "ModelFileWrite", "(*os.File).WriteString": "ModelFileWriteString",
-		"(*os.File).ReadFrom": "ModelFileReadFrom", "(*os.File).Seek": "ModelFileSeek", "(*os.File).Truncate": "ModelFileTruncate",
+		"(*os.File).ReadFrom": "ModelFileReadFrom", "(*os.File).WriteTo": "ModelFileWriteTo", "(*os.File).Seek": "ModelFileSeek", "(*os.File).Truncate": "ModelFileTruncate",
 		"(*os.File).Close": "ModelFileClose", "(*os.File).Stat": "ModelFileStat", "(*os.File).Name": "ModelFileName", "(*os.File).Sync": "ModelFileSync",
 		"github.com/rogpeppe/go-internal/lockedfile.OpenFile":     "ModelLockedOpenFile",
 		"(*github.com/rogpeppe/go-internal/lockedfile.File).Close": "ModelLockedClose",
@@ -52,9 +52,18 @@ func init() {
 		if ex.clock != nil {
 			lo = ex.clock
 		}
-		ex.pc = append(ex.pc, BVCmp(OpSLE, lo, c), BVCmp(OpSLT, c, MkBV(1<<62, 64)))
+		cmp := OpSLE
+		if ex.strictClock && ex.clock != nil {
+			cmp = OpSLT
+		}
+		ex.pc = append(ex.pc, BVCmp(cmp, lo, c), BVCmp(OpSLT, c, MkBV(1<<62, 64)))
 		ex.clock = c
 		return c
+	}
+	I[apiP+"StrictClock"] = func(t *Thread, fn *ssa.Function, a []Value) Value {
+		t.ex.H.noteOutside("two readings of the clock that return the same instant (timestamps are assumed to be strictly increasing)")
+		t.ex.strictClock = true
+		return nil
 	}
 	I["time.Now"] = func(t *Thread, fn *ssa.Function, a []Value) Value { return mkTime(now(t)) }
 	I["time.Unix"] = func(t *Thread, fn *ssa.Function, a []Value) Value {
